@@ -166,7 +166,7 @@ def _api_binary(ob, entry, op, s, t, prec, rnd):
     """entry: 'op' (operator on two mpf objects, rounding must be 'n'), 'rop' (reflected), 'f' (fadd/fsub/fmul/fdiv with
     prec=/rounding= keywords; prec 0 -> exact=True), 'fdps' ...  Returns (outs, unwrap)."""
     import mpmath
-    mp = _ctx(prec if entry in ('op', 'rop') else 53)
+    mp = _ctx(prec if entry in ('op', 'rop', 'fmod') else 53)
     x = mp.make_mpf(s)
     y = mp.make_mpf(t)
     cls = mp.mpf
@@ -182,6 +182,10 @@ def _api_binary(ob, entry, op, s, t, prec, rnd):
         fn = {'+': mp.fadd, '-': mp.fsub, '*': mp.fmul, '/': mp.fdiv}[op]
         kw = dict(prec=prec, rounding=rnd) if prec else dict(exact=True)
         outs = ob.run(fn, [x, y], kw)
+    elif entry == 'fmod':
+        if rnd != 'n' or not prec or op != '%':
+            raise Unsupported('fmod uses the context rounding (nearest) and precision')
+        outs = ob.run(mp.fmod, [x, y])
     else:
         raise Unsupported('entry ' + entry)
 
@@ -197,10 +201,12 @@ def _api_binary(ob, entry, op, s, t, prec, rnd):
 
 def _api_binary_concrete(entry, op, s, t, prec, rnd):
     import mpmath
-    mp = _ctx(prec if entry in ('op', 'rop') else 53)
+    mp = _ctx(prec if entry in ('op', 'rop', 'fmod') else 53)
     x, y = mp.make_mpf(s), mp.make_mpf(t)
     try:
-        if entry in ('op', 'rop'):
+        if entry == 'fmod':
+            r = mp.fmod(x, y)
+        elif entry in ('op', 'rop'):
             r = {'+': operator.add, '-': operator.sub, '*': operator.mul, '/': operator.truediv, '%': operator.mod}[op](x, y)
         else:
             fn = {'+': mp.fadd, '-': mp.fsub, '*': mp.fmul, '/': mp.fdiv}[op]
